@@ -11,7 +11,7 @@
   The well-formedness conditions are exactly the token-level ambiguities of Rust's tokenisation
   (a free-standing `-` before a NUMERIC literal, `:` before a literal or an identifier, the lone
   `.`), shown necessary by witnesses in that file (`minus_before_number_witness`).  Since the repair
-  509396b of parser.rs a `-` before a string or character literal is the symbol `-`: `(- "s")`,
+  70c5316 of parser.rs a `-` before a string or character literal is the symbol `-`: `(- "s")`,
   `(- 'a')`, `(- "s" 1)` are well formed and covered (`minus_before_string_tokens`,
   `C09_expand_minus_before_string`; end to end in LexprModel/Proofs/MacroMinus.lean, imported here:
   `C09_agree_minus_string/_char/_string_int`, `C09_agree_full_minus_string/_char/_escaped`,
